@@ -122,13 +122,13 @@ type pval struct {
 }
 
 type opPlan struct {
-	op     simapi.Op
-	kind   string // none json urlenc multipart
-	vals   []*pval
-	prod   string
-	status int
-	hdrs   map[string]string
-	result any
+	op           simapi.Op
+	kind         string // none json urlenc multipart
+	vals         []*pval
+	prod         string
+	status       int
+	hdrs         map[string]string
+	result       any
 	useResponder bool
 }
 
